@@ -59,7 +59,7 @@ theorem replyBytes_fresh (w : World) (r : Rq) (m : Msg) (sec b a' : Bytes)
 theorem serialize_header (H : Hashes) (hmd5 : ∀ x, (H.md5 x).length = 16) (hhmac : ∀ k x, (H.hmacMd5 k x).length = 16)
     (m : Msg) (sec b a' : Bytes) (ha : m.auth.length = 16) (h : serialize H m (some sec) = .ok b a') :
     b.take 2 = [m.code, m.id] := by
-  rw [C06.serialize_eq H] at h
+  replace h := C06.serialize_eq H _ _ _ _ h
   split at h
   · cases h
   · cases hs : stage1 H m sec with
